@@ -10,6 +10,7 @@ from . import project as P  # noqa: E402
 from .replay import Runner, classify  # noqa: E402
 
 SKIP = ("lg", "tb", "bld", "pm")
+_probe_done = {"x": False}
 
 
 def _strip(p):
@@ -173,6 +174,24 @@ def check_mappable(cfg, run, ctx, key, e, proj_template):
             why = f"projection failed: {ex!r}"
         if why:
             out.append(("C08.BuildEqualsDirect", {"clause": "mappable_differs", "mapping": mi, "why": why[:200]}))
+    # declared order that is not the sorted order of the ids, index-based targeting against it
+    if not _probe_done["x"]:
+        _probe_done["x"] = True
+        from pulser.register.mappable_reg import MappableRegister
+        names = ["zz", "aa", "mm"]
+        mseq = Sequence(MappableRegister(run.layout, *names), run.device)
+        loc = next((D_id for D_id, ch in run.device.channels.items() if ch.addressing == "Local"), None)
+        if loc is not None:
+            mseq.declare_channel("probe", loc, initial_target="aa")
+            v = mseq.declare_variable("i", dtype=int)
+            mseq.target_index(v, "probe")
+            res, b = _build(mseq, {"qubits": {"aa": 1, "zz": 4}, "i": 0})
+            if res != "ok" or list(b.register.qubit_ids) != ["zz", "aa"]:
+                out.append(("C08.MappableBuild", {"clause": "declared_order_probe", "build": res,
+                                                  "got": None if res != "ok" else list(b.register.qubit_ids)}))
+            elif b._schedule["probe"].slots[-1].targets != {"zz"}:
+                out.append(("C08.MappableBuild", {"clause": "index_resolves_against_declared_order",
+                                                  "got": sorted(b._schedule["probe"].slots[-1].targets)}))
     after = P.project(seq, ctx)
     why = P.diff(after, proj_template, cfg.ptol, cfg.phase_mod, "template")
     if why or sorted(seq._qids) != qids_before:
